@@ -526,11 +526,19 @@ mod for_trait_object {
 
     use super::*;
 
+    /// The trait object interface only reports an `AllocError`, so we need to
+    /// find out ourselves whether the allocation failed because the bump allocator is claimed.
+    #[cold]
+    #[inline(never)]
+    fn allocation_error<E: ErrorBehavior>(bump: &impl BumpAllocatorCore, layout: Layout) -> E {
+        if bump.is_claimed() { E::claimed() } else { E::allocation(layout) }
+    }
+
     #[inline]
     pub(super) fn allocate_layout<E: ErrorBehavior>(bump: impl BumpAllocatorCore, layout: Layout) -> Result<NonNull<u8>, E> {
         match bump.allocate(layout) {
             Ok(ptr) => Ok(ptr.cast()),
-            Err(AllocError) => Err(E::allocation(layout)),
+            Err(AllocError) => Err(allocation_error(&bump, layout)),
         }
     }
 
@@ -538,7 +546,7 @@ mod for_trait_object {
     pub(super) fn allocate_sized<E: ErrorBehavior, T>(bump: impl BumpAllocatorCore) -> Result<NonNull<T>, E> {
         match bump.allocate(Layout::new::<T>()) {
             Ok(ptr) => Ok(ptr.cast()),
-            Err(AllocError) => Err(E::allocation(Layout::new::<T>())),
+            Err(AllocError) => Err(allocation_error(&bump, Layout::new::<T>())),
         }
     }
 
@@ -550,7 +558,7 @@ mod for_trait_object {
 
         match bump.allocate(layout) {
             Ok(ptr) => Ok(ptr.cast()),
-            Err(AllocError) => Err(E::allocation(layout)),
+            Err(AllocError) => Err(allocation_error(&bump, layout)),
         }
     }
 
@@ -563,7 +571,7 @@ mod for_trait_object {
 
         match bump.allocate(layout) {
             Ok(ptr) => Ok(ptr.cast()),
-            Err(AllocError) => Err(E::allocation(layout)),
+            Err(AllocError) => Err(allocation_error(&bump, layout)),
         }
     }
 
@@ -605,7 +613,7 @@ mod for_trait_object {
         };
 
         let Ok(range) = bump.prepare_allocation(layout) else {
-            return Err(E::allocation(layout));
+            return Err(allocation_error(&bump, layout));
         };
 
         // NB: We can't use `offset_from_unsigned`, because the size is not a multiple of `T`'s.
@@ -648,7 +656,7 @@ mod for_trait_object {
         };
 
         let Ok(range) = bump.prepare_allocation_rev(layout) else {
-            return Err(E::allocation(layout));
+            return Err(allocation_error(&bump, layout));
         };
 
         // NB: We can't use `offset_from_unsigned`, because the size is not a multiple of `T`'s.
@@ -686,7 +694,7 @@ mod for_trait_object {
 
         match bump.prepare_allocation(layout) {
             Ok(_) => Ok(()),
-            Err(AllocError) => Err(E::allocation(layout)),
+            Err(AllocError) => Err(allocation_error(&bump, layout)),
         }
     }
 }
